@@ -39,6 +39,12 @@ def enabled(w, b):
             if len(lg) < L:
                 for f in filters:
                     ops.append(("rg", a, p, f) if f is not None else ("rg", a, p))
+    eager = sp.get("eager_get")
+    if eager:
+        gg = [t for t in w.toks if t.side == "g" and t.status == GRANTED]
+        if gg:
+            return [("get", gg[0].idx)]
+        ops = [o for o in ops if not (o[0] == "rg" and lg)]
     for t in w.toks:
         if not t.live:
             continue
